@@ -40,6 +40,17 @@ def c01(ctx):
     ctx.vdrive(["boundsvec", "-in", r["out"], "-out", rp])
     os.remove(r["out"])
     rep = ctx.report(rp)
+    # prefix-style text signatures (TextSig.tla): in-bounds obligations, reference reading, replay on text/html
+    ts = ctx.tlc_expect_ok("MC_TextSig.tla", "MC_TextSig.cfg", timeout=3000, xmx="16g")
+    rps = os.path.join(ctx.scratch, "sigvec.json")
+    ctx.vdrive(["sigvec", "-in", ts["out"], "-out", rps])
+    os.remove(ts["out"])
+    srep = ctx.report(rps)
+    rep["violations"] += srep["violations"]
+    rep["evaluations"] += srep["evaluations"]
+    rep["drift"] += srep["drift"]
+    rep.setdefault("drift_samples", [])
+    rep["drift_samples"] += srep.get("drift_samples", [])
     # zip layouts with the in-bounds obligations of ZipWalk.tla (DesignC01)
     z = ctx.tlc_expect_ok("MC_Zip.tla", "MC_Zip.cfg", timeout=3000, tag="MC_Zip_c01")
     os.remove(z["out"])
